@@ -575,9 +575,8 @@ Proof.
     exists ((fst b, 0) :: pay), cw, more.
     change (rtx_pay_rest (b :: b2 :: t2) crc) with ((fst b, 0) :: rtx_pay_rest (b2 :: t2) crc). rewrite E.
     change (flat_map beat_bytes (b :: b2 :: t2)) with (beat_bytes b ++ flat_map beat_bytes (b2 :: t2)).
-    unfold beat_bytes at 1 3 5 7. rewrite Hv. change (N.to_nat (rtx_nbytes 15)) with 4%nat.
-    change (firstn 4 (drx_bytes4 (fst b))) with (drx_bytes4 (fst b)).
-    set (P := flat_map beat_bytes (b2 :: t2)) in *.
+    assert (Hbb : beat_bytes b = drx_bytes4 (fst b)) by (unfold beat_bytes; rewrite Hv; reflexivity).
+    rewrite !Hbb. set (P := flat_map beat_bytes (b2 :: t2)) in *.
     change (sp_pbytes (((fst b, 0) :: pay) ++ [cw])) with (drx_bytes4 (fst b) ++ sp_pbytes (pay ++ [cw])).
     rewrite app_length. change (length (drx_bytes4 (fst b))) with 4%nat.
     repeat split.
@@ -624,27 +623,25 @@ Proof.
   destruct (p_beats p) as [|b0 t0] eqn:EB.
   - (* zero-length packet *)
     assert (Hpl : p_payload p = []) by (unfold p_payload; rewrite EB; reflexivity).
-    exists [rtx_crc_word 15 crc], []. cbn [app]. rewrite Hpl in *. cbn [length N.of_nat] in HLen. split.
-    + change ((RTX_HPSTART :: (p_dw0 p, 0) :: (p_dw1 p, 0) :: (p_dw2 p, 0)
-               :: (rtx_dw3 (crc16_hdr [p_dw0 p; p_dw1 p; p_dw2 p]) (p_lf p), 0)
-               :: RTX_DPPSTART :: [rtx_crc_word 15 crc; rtx_fin_word 15]) ++ rest)
-        with ((DRX_HPSTART, 15) :: (p_dw0 p, 0) :: (p_dw1 p, 0) :: (p_dw2 p, 0)
-               :: (rtx_dw3 (crc16_hdr [p_dw0 p; p_dw1 p; p_dw2 p]) (p_lf p), 0)
-               :: (DRX_DPPSTART, 15) :: [rtx_crc_word 15 crc] ++ rtx_fin_word 15 :: rest).
-      rewrite (sp_good_packet crc16_hdr crc32_usb lw); try assumption.
-      * fold ws. f_equal. f_equal. f_equal.
-        unfold sp_verdict. fold ws. rewrite HLen. cbn [N.to_nat firstn skipn]. unfold crc.
-        unfold sp_pbytes. cbn [rtx_crc_word app map fst flat_map firstn drx_bytes4]. 
-        change [bits (crc32_usb []) 0 8; bits (crc32_usb []) 8 8; bits (crc32_usb []) 16 8; bits (crc32_usb []) 24 8]
-          with (drx_bytes4 (crc32_usb [])). rewrite drx_le_word by apply drx_crc32_lt. apply N.eqb_refl.
-      * fold ws. rewrite HLen. reflexivity.
-      * fold ws. apply rtx_clean_zero. constructor; [reflexivity | constructor].
+    unfold crc in *. clear crc. rewrite Hpl in *. exists [rtx_crc_word 15 (crc32_usb [])], []. cbn [app]. cbn [length N.of_nat] in HLen. split.
+    + assert (Hn : N.of_nat (length [rtx_crc_word 15 (crc32_usb [])]) = sp_nwords (sp_len lw ws)) by (rewrite HLen; reflexivity).
+      assert (Hcl : sp_clean lw ws 0 [rtx_crc_word 15 (crc32_usb [])] = true)
+        by (apply rtx_clean_zero; constructor; [reflexivity | constructor]).
+      pose proof (sp_good_packet crc16_hdr crc32_usb lw (p_dw0 p) 0 (p_dw1 p) 0 (p_dw2 p) 0
+                    (rtx_dw3 (crc16_hdr [p_dw0 p; p_dw1 p; p_dw2 p]) (p_lf p)) 0
+                    [rtx_crc_word 15 (crc32_usb [])] (rtx_fin_word 15) rest Ht Hok Hn Hcl) as G.
+      etransitivity; [exact G|]. fold ws. f_equal. f_equal. f_equal.
+      unfold sp_verdict. fold ws. rewrite HLen. change (N.to_nat 0) with 0%nat.
+      change (firstn 0 (sp_pbytes ([rtx_crc_word 15 (crc32_usb [])] ++ [rtx_fin_word 15]))) with (@nil N).
+      change (drx_le (firstn 4 (skipn 0 (sp_pbytes ([rtx_crc_word 15 (crc32_usb [])] ++ [rtx_fin_word 15])))))
+        with (drx_le (drx_bytes4 (crc32_usb []))).
+      rewrite drx_le_word by apply drx_crc32_lt. apply N.eqb_refl.
     + cbn [sp_beats]. fold ws. rewrite HLen. reflexivity.
   - (* at least one beat *)
     rewrite <- EB in *.
     assert (Hne : p_beats p <> []) by (rewrite EB; discriminate).
-    destruct (rtx_body_split crc (p_beats p) Hne Hb (drx_crc32_lt _)) as [pay [cw [more [E [Hl [Hz [F1 [F2 F3]]]]]]]].
-    fold (p_payload p) in F1, F2, F3.
+    destruct (rtx_body_split crc (p_beats p) Hne Hb (drx_crc32_lt _)) as [pay [cw [more [E [Hl [Hz [G1 [G2 G3]]]]]]]].
+    fold (p_payload p) in G1, G2, G3.
     exists pay, more.
     assert (Hmatch : match p_beats p with [] => [rtx_crc_word 15 crc; rtx_fin_word 15] | _ :: _ => rtx_pay_rest (p_beats p) crc end
                      = pay ++ cw :: more) by (rewrite EB in *; exact E).
@@ -652,20 +649,109 @@ Proof.
     assert (Hn : N.of_nat (length pay) = sp_nwords (sp_len lw ws)).
     { rewrite HLen, Hl. unfold sp_nwords. destruct (N.of_nat (length (p_payload p)) =? 0) eqn:E0; lia. }
     split.
-    + change ((RTX_HPSTART :: (p_dw0 p, 0) :: (p_dw1 p, 0) :: (p_dw2 p, 0)
-               :: (rtx_dw3 (crc16_hdr [p_dw0 p; p_dw1 p; p_dw2 p]) (p_lf p), 0)
-               :: RTX_DPPSTART :: rtx_pay_rest (p_beats p) crc) ++ rest)
-        with ((DRX_HPSTART, 15) :: (p_dw0 p, 0) :: (p_dw1 p, 0) :: (p_dw2 p, 0)
-               :: (rtx_dw3 (crc16_hdr [p_dw0 p; p_dw1 p; p_dw2 p]) (p_lf p), 0)
-               :: (DRX_DPPSTART, 15) :: rtx_pay_rest (p_beats p) crc ++ rest).
-      rewrite E, <- app_assoc. cbn [app].
-      rewrite (sp_good_packet crc16_hdr crc32_usb lw); try assumption.
-      * fold ws. f_equal. f_equal. f_equal.
-        unfold sp_verdict. fold ws. rewrite HLen, Nat2N.id, F1, F2. apply N.eqb_refl.
-      * fold ws. apply rtx_clean_zero. exact Hz.
+    + assert (Hcl : sp_clean lw ws 0 pay = true) by (apply rtx_clean_zero; exact Hz).
+      pose proof (sp_good_packet crc16_hdr crc32_usb lw (p_dw0 p) 0 (p_dw1 p) 0 (p_dw2 p) 0
+                    (rtx_dw3 (crc16_hdr [p_dw0 p; p_dw1 p; p_dw2 p]) (p_lf p)) 0
+                    pay cw (more ++ rest) Ht Hok Hn Hcl) as G.
+      rewrite E. cbn [app]. rewrite <- app_assoc. cbn [app].
+      etransitivity; [exact G|]. fold ws. f_equal. f_equal. f_equal.
+      unfold sp_verdict. fold ws. rewrite HLen, Nat2N.id, G1, G2. apply N.eqb_refl.
     + rewrite drx_beats_bytes. fold ws. rewrite N.mul_0_r, N.sub_0_r, HLen, Nat2N.id.
-      rewrite <- F1 at 2. unfold sp_pbytes. rewrite map_app, flat_map_app, firstn_app.
+      rewrite <- G1 at 2. unfold sp_pbytes. rewrite map_app, flat_map_app, firstn_app.
       replace (length (p_payload p) - length (flat_map drx_bytes4 (map fst pay)))%nat with 0%nat.
       * rewrite firstn_O, app_nil_r. reflexivity.
       * change (flat_map drx_bytes4 (map fst pay)) with (drx_wbytes pay). rewrite drx_wbytes_length. lia.
+Qed.
+
+(* ------------------------------------------------------------------------------------------------------ *)
+(* 9. packing for the lock-step obligations                                                                 *)
+Lemma rtx_fsm_code_lt : forall f, rtx_fsm_code f < 16.
+Proof. destruct f; cbn; lia. Qed.
+Lemma rtx_fsm_of_code : forall f, rtx_fsm_of (rtx_fsm_code f) = f.
+Proof. destruct f; reflexivity. Qed.
+
+Lemma rtx_dec_enc : forall s, rtx_wf s -> rtx_dec (rtx_enc s) = s.
+Proof.
+  intros s (H1 & H2 & H3 & H4 & H5 & H6 & H7).
+  unfold rtx_dec. cbv zeta. rewrite !N.shiftr_div_pow2.
+  change 15 with (N.ones 4); change 4294967295 with (N.ones 32). rewrite !N.land_ones.
+  change (2 ^ 4) with 16; change (2 ^ 32) with W32; change (2 ^ 1) with 2. unfold rtx_enc.
+  repeat first [ rewrite (pk_div 16 (rtx_fsm_code (tf s))) by apply rtx_fsm_code_lt
+               | rewrite (pk_mod 16 (rtx_fsm_code (tf s))) by apply rtx_fsm_code_lt
+               | rewrite pk_div by first [assumption | apply b2n_lt2]
+               | rewrite pk_mod by first [assumption | apply b2n_lt2] ].
+  rewrite drx_odd_pk2, rtx_fsm_of_code. destruct s; reflexivity.
+Qed.
+
+Lemma rtx_wf_init : forall U, units_bounded U -> rtx_wf (rtx_init U).
+Proof. intros U (A & B & _ & _). unfold rtx_wf, rtx_init, W32 in *. cbn. repeat split; try lia; assumption. Qed.
+
+Lemma rtx_wf_next : forall U, units_bounded U -> forall s x,
+  i_ddata x < W32 -> i_dvalid x < 16 -> rtx_wf s -> rtx_wf (fst (rtx_next U s x)).
+Proof.
+  intros U (Ai & Bi & Aa & Ba) s x Hd Hv (H1 & H2 & H3 & H4 & H5 & H6 & H7).
+  assert (Hh0 : bits (i_hdr x) 0 32 < W32) by apply (bits_lt _ 0 32).
+  assert (Hh1 : bits (i_hdr x) 32 32 < W32) by apply (bits_lt _ 32 32).
+  assert (Hh2 : bits (i_hdr x) 64 32 < W32) by apply (bits_lt _ 64 32).
+  assert (Hh3 : bits (i_hdr x) 96 32 < W32) by apply (bits_lt _ 96 32).
+  assert (H16 : forall w, (if i_ready x then u16_adv U (t16 s) w else t16 s) < W32)
+    by (intro w; destruct (i_ready x); [apply Aa; assumption | assumption]).
+  assert (Hi : u16_init U < W32) by exact Ai.
+  assert (H15 : 15 < 16) by lia.
+  unfold rtx_next.
+  destruct (tf s); cbn [fst];
+    repeat match goal with |- rtx_wf (if ?c then _ else _) => destruct c end;
+    unfold rtx_wf; cbn [th0 th1 th2 thl tpw tpv t16]; repeat split;
+    first [assumption | apply H16 | idtac].
+Qed.
+
+Lemma rtx_wf_step : forall U, units_bounded U -> forall s i, rtx_wf s -> rtx_wf (fst (rtx_step U s i)).
+Proof.
+  intros U HU s i Hs. unfold rtx_step.
+  pose proof (rtx_wf_next U HU s (rtx_decode i)) as H.
+  destruct (rtx_next U s (rtx_decode i)) as [s' o]. cbn [fst] in *. apply H; [| | exact Hs].
+  - unfold rtx_decode. cbn [i_ddata]. apply (bits_lt i 129 32).
+  - unfold rtx_decode. cbn [i_dvalid]. apply (bits_lt i 161 4).
+Qed.
+
+Lemma rhr_fsm_code_lt : forall f, rhr_fsm_code f < 8.
+Proof. destruct f; cbn; lia. Qed.
+Lemma rhr_fsm_of_code : forall f, rhr_fsm_of (rhr_fsm_code f) = f.
+Proof. destruct f; reflexivity. Qed.
+
+Lemma rhr_dec_enc : forall s, rhr_wf s -> rhr_dec (rhr_enc s) = s.
+Proof.
+  intros s (H1 & H2 & H3 & H4 & H5 & H6).
+  unfold rhr_dec. cbv zeta. rewrite !N.shiftr_div_pow2.
+  change 7 with (N.ones 3); change 31 with (N.ones 5); change 4294967295 with (N.ones 32). rewrite !N.land_ones.
+  change (2 ^ 3) with 8; change (2 ^ 32) with W32; change (2 ^ 5) with 32; change (2 ^ 1) with 2. unfold rhr_enc.
+  repeat first [ rewrite (pk_div 8 (rhr_fsm_code (rf s))) by apply rhr_fsm_code_lt
+               | rewrite (pk_mod 8 (rhr_fsm_code (rf s))) by apply rhr_fsm_code_lt
+               | rewrite pk_div by first [assumption | apply b2n_lt2]
+               | rewrite pk_mod by first [assumption | apply b2n_lt2] ].
+  rewrite drx_odd_pk2, rhr_fsm_of_code. destruct s; reflexivity.
+Qed.
+
+Lemma rhr_wf_init : forall U, units_bounded U -> rhr_wf (rhr_init U).
+Proof. intros U (A & B & _ & _). unfold rhr_wf, rhr_init, W32 in *. cbn. repeat split; try lia; assumption. Qed.
+
+Lemma rhr_wf_next : forall U, units_bounded U -> forall s v data ctrl eseq, data < W32 -> rhr_wf s ->
+  rhr_wf (fst (rhr_next U s v data ctrl eseq)).
+Proof.
+  intros U (Ai & Bi & Aa & Ba) s v data ctrl eseq Hd (H1 & H2 & H3 & H4 & H5 & H6).
+  pose proof (drx_crc5_lt (bits data 16 11)) as H5'.
+  assert (Hi : u16_init U < W32) by exact Ai.
+  assert (Ha : u16_adv U (r16 s) data < W32) by (apply Aa; assumption).
+  unfold rhr_next.
+  destruct (rf s); cbn [fst];
+    repeat match goal with |- rhr_wf (if ?c then _ else _) => destruct c end;
+    unfold rhr_wf; cbn [rp0 rp1 rp2 rp3 rx5 r16]; repeat split; assumption.
+Qed.
+
+Lemma rhr_wf_step : forall U, units_bounded U -> forall s i, rhr_wf s -> rhr_wf (fst (rhr_step U s i)).
+Proof.
+  intros U HU s i Hs. unfold rhr_step.
+  pose proof (bits_lt i 0 32) as Hd. change (2 ^ 32) with W32 in Hd.
+  pose proof (rhr_wf_next U HU s (N.odd (bits i 36 1)) (bits i 0 32) (bits i 32 4) (bits i 37 3) Hd Hs) as H.
+  destruct (rhr_next U s (N.odd (bits i 36 1)) (bits i 0 32) (bits i 32 4) (bits i 37 3)) as [s' o]. exact H.
 Qed.
